@@ -1384,6 +1384,9 @@ class Worker(actor.RallyActor):
                 self.drive()
             else:
                 self.logger.debug("Worker[%d] is executing tasks at index [%d].", self.worker_id, self.current_task_index)
+                # the previous tasks may have produced samples after the last wake-up has drained the queue; ship them before
+                # the sampler is replaced (at a join point this is done above)
+                self.send_samples()
                 self.sampler = Sampler(start_timestamp=time.perf_counter(), buffer_size=self.sample_queue_size)
                 executor = AsyncIoAdapter(
                     self.config,
